@@ -104,6 +104,9 @@ func check(r *vh.Run, ck string, o *obs, secrets []*leak.Secret) {
 		r.Count("bytes_scanned", int64(buf.Len()))
 		r.Inc("surfaces_scanned")
 		r.Inc("surface_" + surfaceClass(surface))
+		if buf.Len() > 0 {
+			r.Inc("nonempty:" + surface)
+		}
 		for _, h := range leak.Scan(buf.Bytes(), secrets) {
 			kind := h.Secret
 			if i := strings.Index(kind, ":"); i > 0 {
@@ -315,7 +318,7 @@ func TestProp(t *testing.T) {
 		for _, kind := range []string{"pw", "kt"} {
 			for _, et := range kcrypto.Etypes {
 				for _, pol := range []string{"none", "info2", "info+pwsalt"} {
-					for _, variant := range []string{"ok", "wrong-secret", "kdc-error-6", "kdc-error-14", "kdc-error-24", "unreachable", "chgpw-ok", "chgpw-error"} {
+					for _, variant := range []string{"ok", "wrong-secret", "kdc-error-6", "kdc-error-14", "kdc-error-24", "unreachable", "chgpw-ok", "chgpw-error", "cfg-realm-block-without-kdc", "cfg-no-realm-block", "cfg-other-default-realm"} {
 						kind, et, pol, variant, rep := kind, et, pol, variant, rep
 						ck := fmt.Sprintf("client/%s/et=%d/%s/%s/%d", kind, et, pol, variant, rep)
 						w := worlds[si%nw]
@@ -361,6 +364,9 @@ func TestProp(t *testing.T) {
 	r.Require("surface_log", 100)
 	r.Require("surface_print", 100)
 	r.Require("surface_marshal-after-decrypt", 100)
+	r.Require("nonempty:marshal-after-decrypt/ticket-sequence", 6)
+	r.Require("nonempty:marshal-after-decrypt/TGS-REQ-with-additional-ticket", 6)
+	r.Require("nonempty:error:IsConfigured", 12)
 	r.Require("session_keys_planted", 100)
 	r.Require("file_truncations", 500)
 	r.Require("password_changes_observed", 10)
@@ -407,7 +413,17 @@ func clientScenario(r *vh.Run, w *world, ck, kind string, et int32, pol, variant
 		kdcAddr = "127.0.0.1:9" // nothing listens
 	}
 	etn := kcrypto.EtypeName(et)
-	cfg, err := config.NewFromString(fmt.Sprintf("[libdefaults]\n default_realm = %s\n dns_lookup_kdc = false\n dns_lookup_realm = false\n noaddresses = true\n allow_weak_crypto = true\n default_tkt_enctypes = %s\n default_tgs_enctypes = %s aes256-cts-hmac-sha1-96\n permitted_enctypes = %s aes256-cts-hmac-sha1-96\n[realms]\n %s = {\n  kdc = %s\n  kpasswd_server = %s\n }\n[domain_realm]\n .test.gokrb5 = %s\n", realm, etn, etn, etn, realm, kdcAddr, w.kpAddr, realm))
+	// misconfigurations: the errors they produce are surfaces like any other
+	defRealm, blockRealm, kdcLine := realm, realm, "  kdc = "+kdcAddr+"\n"
+	switch variant {
+	case "cfg-realm-block-without-kdc":
+		kdcLine = "  admin_server = " + kdcAddr + "\n"
+	case "cfg-no-realm-block":
+		blockRealm = "ELSEWHERE.GOKRB5"
+	case "cfg-other-default-realm":
+		defRealm, blockRealm = "ELSEWHERE.GOKRB5", "ELSEWHERE.GOKRB5"
+	}
+	cfg, err := config.NewFromString(fmt.Sprintf("[libdefaults]\n default_realm = %s\n dns_lookup_kdc = false\n dns_lookup_realm = false\n noaddresses = true\n allow_weak_crypto = true\n default_tkt_enctypes = %s\n default_tgs_enctypes = %s aes256-cts-hmac-sha1-96\n permitted_enctypes = %s aes256-cts-hmac-sha1-96\n[realms]\n %s = {\n%s  kpasswd_server = %s\n }\n[domain_realm]\n .test.gokrb5 = %s\n", defRealm, etn, etn, etn, blockRealm, kdcLine, w.kpAddr, realm))
 	if err != nil {
 		r.Inconclusive(err.Error())
 		return
@@ -440,9 +456,21 @@ func clientScenario(r *vh.Run, w *world, ck, kind string, et int32, pol, variant
 			fmt.Sscanf(variant, "kdc-error-%d", &code)
 			w.k.ForceError = code
 		}
+		_, cerr := cl.IsConfigured()
+		o.err("IsConfigured", cerr)
 		err := cl.Login()
 		o.err("Login", err)
 		w.k.ForceError = 0
+		o.err("AffirmLogin", cl.AffirmLogin())
+		if err != nil {
+			// the calls an application makes next, without a session
+			_, _, e := cl.GetServiceTicket("HTTP/host.test.gokrb5")
+			o.err("GetServiceTicket-without-session", e)
+			if kind == "pw" && strings.HasPrefix(variant, "cfg-") {
+				_, e = cl.ChangePasswd(markerPassword(rnd, "never-sent"))
+				o.err("ChangePasswd-without-session", e)
+			}
+		}
 		if err == nil {
 			tkt, key, err := cl.GetServiceTicket("HTTP/host.test.gokrb5")
 			o.err("GetServiceTicket", err)
@@ -590,6 +618,24 @@ func serviceScenario(t *testing.T, r *vh.Run, ck string, et int32, def string) {
 			tb, e := a.Ticket.Marshal()
 			o.err("Ticket.Marshal", e)
 			o.add("marshal-after-decrypt/Ticket", tb)
+			// the same decrypted ticket through the ticket-sequence encoder: alone, and as additional ticket of a TGS-REQ
+			raw, e := messages.MarshalTicketSequence([]messages.Ticket{a.Ticket, a.Ticket})
+			o.err("MarshalTicketSequence", e)
+			o.add("marshal-after-decrypt/ticket-sequence", append(append([]byte{}, raw.Bytes...), raw.FullBytes...))
+			if ucfg, e := config.NewFromString("[libdefaults]\n default_realm = " + realm + "\n dns_lookup_kdc = false\n allow_weak_crypto = true\n"); e == nil {
+				cname := types.PrincipalName{NameType: 1, NameString: []string{"u2u"}}
+				sname := types.PrincipalName{NameType: 2, NameString: []string{"HTTP", "host.test.gokrb5"}}
+				tgs, e := messages.NewUser2UserTGSReq(cname, realm, ucfg, a.Ticket, types.EncryptionKey{KeyType: et, KeyValue: sess.Value}, sname, false, a.Ticket)
+				o.err("NewUser2UserTGSReq", e)
+				if e == nil {
+					b, e := tgs.Marshal()
+					o.err("TGSReq.Marshal", e)
+					o.add("marshal-after-decrypt/TGS-REQ-with-additional-ticket", b)
+					bb, e := tgs.ReqBody.Marshal()
+					o.err("KDCReqBody.Marshal", e)
+					o.add("marshal-after-decrypt/KDC-REQ-BODY-with-additional-ticket", bb)
+				}
+			}
 		}
 		// the HTTP handler with the same token (fresh authenticator not needed: a replay is a fine failing case too)
 		h := spnego.SPNEGOKRB5Authenticate(http.HandlerFunc(func(w http.ResponseWriter, rq *http.Request) {
